@@ -143,6 +143,17 @@ func (b *bess) SendMsgToUPF(
 		return cause
 	}
 
+	if method == upfMsgTypeAdd || method == upfMsgTypeMod {
+		// Refuse rules that cannot be installed instead of acknowledging them.
+		for _, pdr := range pdrs {
+			_, err := CreatePortRangeCartesianProduct(pdr.appFilter.srcPortRange, pdr.appFilter.dstPortRange)
+			if err != nil {
+				logger.BessLog.Errorln("PDR cannot be installed:", err)
+				return ie.CauseRequestRejected
+			}
+		}
+	}
+
 	ctx, cancel := context.WithTimeout(context.Background(), Timeout)
 	defer cancel()
 
